@@ -303,6 +303,11 @@ def volume (args : List String) : String :=
       | some (.cluster c) => s!"ok cluster{c}"
       | none => "ok none"
     | _, _, _, _, _, _, _, _, _, _, _, _ => "bad-op"
+  | ["mkfsarith", ty, size, ss, spc, nf] =>
+    match ty.toInt?, size.toInt?, ss.toInt?, spc.toInt?, nf.toInt? with
+    | some ty, some size, some ss, some spc, some nf =>
+      s!"ok {Gen.Arith.mkfs_num_sec size ss} {Gen.Arith.mkfs_fat_size ty size ss spc nf} {Gen.Arith.mkfs_root_ent_cnt ty ss} {Gen.Arith.mkfs_rsvd_sec_cnt ty} {Gen.Arith.mkfs_root_dir_sectors ty ss}"
+    | _, _, _, _, _ => "bad-op"
   | ["seekcursor", bpc, fsz, off] =>
     match bpc.toNat?, fsz.toNat?, off.toNat? with
     | some bpc, some fsz, some off =>
